@@ -605,10 +605,22 @@ impl CodegenContext {
                                 .allowed("filename")
                                 .extract(id.span, &kvps)?;
                             let name = extractor.get_identifier(self, "name")?;
+                            let size = extractor.try_get_i64(self, "size")?;
+                            if let Some(size) = size {
+                                if size < 0 {
+                                    return Err(Diagnostic::error()
+                                        .with_message(format!(
+                                            "the size of bank '{}' may not be negative: {}",
+                                            name, size
+                                        ))
+                                        .with_labels(vec![id.span.to_label()])
+                                        .into());
+                                }
+                            }
 
                             let opts = BankOptions {
                                 name: name.clone(),
-                                size: extractor.try_get_i64(self, "size")?.map(|s| s as usize),
+                                size: size.map(|s| s as usize),
                                 fill: extractor.try_get_i64(self, "fill")?.map(|s| s as u8),
                                 create_segment: extractor
                                     .try_get_i64(self, "create-segment")?
